@@ -2,6 +2,9 @@ use crate::ctx::Ctx;
 use std::path::Path;
 
 pub mod c01;
+pub mod c02;
+pub mod c03;
+pub mod c04;
 pub mod calibrate;
 
 pub fn run(prop: &str, cx: &mut Ctx) -> bool {
@@ -18,6 +21,9 @@ pub fn run(prop: &str, cx: &mut Ctx) -> bool {
             }
         },
         "C01" => c01::run(cx),
+        "C02" => c02::run(cx),
+        "C03" => c03::run(cx),
+        "C04" => c04::run(cx),
         _ => return false,
     }
     true
